@@ -59,6 +59,9 @@ BASE_SRC = {
             "\t*p += SIZE;\n\tg_n = *p;\n}\n",
     "ty.h": "#ifndef TY_H\n# define TY_H\n\n# include <stddef.h>\n\ntypedef struct s_pt\n{\n\tint\t\tx;\n\tchar\t*name;\n}\tt_pt;\n\n"
             "int\tpt_len(t_pt *p);\n\n#endif\n",
+    # one statement of (nearly) every primary rule kind, conforming or not: typedef / enum blocks in a .c file, global, casts,
+    # ternaries, for, do-while, switch/case, goto + label, calls, expression statements
+    "zoo.c": '#include <stdlib.h>\n\ntypedef struct s_node\n{\n\tint\t\t\t\tval;\n\tstruct s_node\t*next;\n}\tt_node;\n\nenum e_col\n{\n\tRED,\n\tBLUE\n};\n\nstatic int\tg_cnt = 0;\n\nint\tzoo(int a, char *s)\n{\n\tt_node\t\t*n;\n\tenum e_col\tc;\n\tint\t\t\ti;\n\n\tn = (t_node *)malloc(sizeof(t_node));\n\tc = RED;\n\t(void)s;\n\ti = a ? 1 : 2;\n\tfor (i = 0; i < a; i++)\n\t\tg_cnt += i;\n\tdo\n\t{\n\t\ti--;\n\t} while (i > 0);\n\tswitch (a)\n\t{\n\t\tcase 1:\n\t\t\tbreak ;\n\t\tdefault:\n\t\t\ti = 3;\n\t}\n\tgoto end;\nend:\n\tfree(n);\n\treturn (c == RED ? i : a);\n}\n',
     "pp.c": "#if defined(A) && (B > 2)\n# define C 1\n#else\n# define C 0\n#endif\n\nint\tmain(void)\n{\n\treturn (C);\n}\n",
 }
 
@@ -111,18 +114,26 @@ def _native_boundaries(name):
     return offs
 
 
-def chunks(tier, props):
-    out = []
+def chunks(tier, props, seed=0):
+    """cheap deterministic chunks first (open-state cuts, structural edits), then the insertion sweep in a seeded order:
+    the quick tier is budget-limited, and what it does not reach is reported as chunks_not_reached"""
+    import random
+    first, inserts = [], []
     lens = (1, 2, 3, 4) if tier == "quick" else (1, 2, 3, 4, 5, 6)
-    progs = ["fn.c", "ty.h"] if tier == "quick" else list(BASE_SRC)
+    progs = ["fn.c", "ty.h", "zoo.c"] if tier == "quick" else list(BASE_SRC)
+    for name in progs:
+        # files that END in an open state: cut after each of the first lines (inside / right after the 42 header, after
+        # the first statements), inside a header comment line, and the empty file
+        first.append(dict(prog=name, b=0, op="headcut"))
     for name in progs:
         nb = len(boundaries(name))
-        step = 2 if tier == "quick" else 1
-        for b in range(0, nb, step):
-            out.append(dict(prog=name, b=b, op="insert", lens=list(lens), sp=[""] if tier == "quick" else ["", " "]))
+        step = (4 if name == "zoo.c" else 2) if tier == "quick" else 1
         for b in range(0, nb - 1, step):
-            out.append(dict(prog=name, b=b, op="structural"))
-    return out
+            first.append(dict(prog=name, b=b, op="structural"))
+        for b in range(0, nb, step):
+            inserts.append(dict(prog=name, b=b, op="insert", lens=list(lens), sp=[""] if tier == "quick" else ["", " "]))
+    random.Random(seed).shuffle(inserts)
+    return first + inserts
 
 
 # ---------------------------------------------------------------------------------------------- monitors
@@ -245,6 +256,9 @@ def run_chunk(chunk, ctx):
         for L in chunk["lens"]:
             for sp in chunk.get("sp", [""]):
                 variants.append(("ins", L, sp))
+    elif op == "headcut":
+        nl = text.count("\n")
+        variants = [("hcut", k, keep) for k in range(0, min(nl, 16) + 1) for keep in (True, False)] + [("hmid", 3), ("hmid", 11)]
     else:
         variants = [("cut", 0), ("cut_nl", 0), ("del", 1), ("del", 2), ("swap", 0), ("dup", 0)]
     vsets = {}
@@ -252,6 +266,12 @@ def run_chunk(chunk, ctx):
     def build(variant):
         off = offs[b]
         kind = variant[0]
+        if kind == "hcut":          # the first k lines, with / without the last newline
+            t = "".join(l + "\n" for l in text.split("\n")[:variant[1]])
+            return list(t if variant[2] else t[:-1])
+        if kind == "hmid":          # cut in the middle of header line k: an unterminated block comment
+            ls = text.split("\n")
+            return list("".join(l + "\n" for l in ls[:variant[1] - 1]) + ls[variant[1] - 1][:40])
         if kind == "ins":
             L, sp = variant[1], variant[2]
             key = ("ins", L)
